@@ -791,11 +791,15 @@ class Agent(object):
             if self.run_computations:
                 self.run()
             while not self._stopping.is_set():
+                # The shutdown flag must be read before looking at the queue:
+                # if it is read after an empty result, a message posted in
+                # between (before the shutdown) would never be handled.
+                shutting_down = self._shutdown.is_set()
                 # Process messages, if any
                 full_msg, t = self._messaging.next_msg(0.05)
                 if full_msg is None:
                     self._idle = True
-                    if self._shutdown.is_set():
+                    if shutting_down:
                         self.logger.info("No message during shutdown, "
                                          "stopping agent thread")
                         break
